@@ -49,7 +49,7 @@ func VerifC02_type5_client_rejects() {
 	}
 	proof := resp[hdr+32*n:]
 	var bad []byte
-	switch vSplit(vInt("perturbation", 0, 4), 0, 4) {
+	switch vSplit(vInt("perturbation", 0, 6), 0, 6) {
 	case 0: // single bit flip anywhere
 		bad = append([]byte{}, resp...)
 		i := vSplit(vInt("byte", 0, len(resp)-1), 0, len(resp)-1)
@@ -77,6 +77,12 @@ func VerifC02_type5_client_rejects() {
 		bad, err = NewBatchedPrivateIssuer(key2).Evaluate(st.Request())
 		vAssume(err == nil)
 		vReach("other-key")
+	case 5: // the honest elements followed by a repetition of the last one
+		bad = c02Response(append(append([][]byte{}, elems...), elems[n-1]), proof)
+		vReach("surplus-duplicate")
+	case 6: // the honest elements followed by an arbitrary one
+		bad = c02Response(append(append([][]byte{}, elems...), vBytes("extra_element", 32, 32)), proof)
+		vReach("surplus-element")
 	}
 	_, ferr := st.FinalizeTokens(bad)
 	vAssert(ferr != nil, "perturbed-response-rejected")
